@@ -70,8 +70,72 @@ func genStatus(rng *hk.Rand) int {
 	return rng.Range(100, 599)
 }
 
+// entry points: Do, Send, and every function of the table regenerated from the source
+var entryNames []string
+
+func loadEntries(r *hk.Run) {
+	repo := os.Getenv("VERIF_REPO")
+	if repo == "" {
+		repo = "/repo"
+	}
+	eps, err := readEntryPoints(repo)
+	if err != nil {
+		r.Fail(hk.Failure{Sig: "entry-table", What: "the table of entry points cannot be read from the source: " + err.Error()})
+		entryNames = []string{"Get", "Post", "MustGet", "MustPost"}
+		return
+	}
+	entryNames = nil
+	for _, e := range eps {
+		n := e.Name
+		if e.Pkg {
+			n = "pkg." + n
+			if pkgFuncs[e.Name] == nil {
+				r.Fail(hk.Failure{Sig: "entry-table:unknown-package-function", What: "package-level entry point not known to the harness", Input: e.Name})
+				continue
+			}
+		}
+		entryNames = append(entryNames, n)
+	}
+}
+
 func genEntry(rng *hk.Rand) string {
-	return hk.Pick(rng, []string{"do", "do", "send", "get", "get", "post", "mustget", "mustpost"})
+	switch k := rng.Intn(10); {
+	case k < 2:
+		return "do"
+	case k < 3:
+		return "send"
+	}
+	return hk.Pick(rng, entryNames)
+}
+
+// what an entry point cannot carry: a package-level function creates its own request (nothing
+// request-level can be configured), HEAD and OPTIONS drop the request body
+func restrictForEntry(p *progSpec) {
+	if strings.HasSuffix(p.Entry, "Head") || strings.HasSuffix(p.Entry, "Options") {
+		p.BodyMode = "none"
+		for a := range p.Attempts {
+			p.Attempts[a].Bi, p.Attempts[a].GetBody = 0, 0
+		}
+		p.Unreplayable, p.OddForm, p.ReqErr = false, false, 0
+	}
+	if !p.pkg() {
+		return
+	}
+	p.TResult, p.TError = false, false
+	if p.AutoRead == 2 {
+		p.AutoRead = 1
+	}
+	p.Retry, p.Max, p.NConds, p.NHooks = false, 0, 0, 0
+	p.ReqErr, p.OddForm, p.Unreplayable, p.Save, p.BodyMode = 0, false, false, false, "none"
+	p.Attempts = p.Attempts[:1]
+	at := &p.Attempts[0]
+	at.Req, at.Conds, at.Ctx, at.SleepCancel, at.Bi, at.GetBody = nil, nil, "", false, 0, 0
+	at.T.B.WriteErr = 0
+	for i := range at.Cli {
+		if at.Cli[i].Digest { // SetCommonDigestAuth is fine at package level too
+			continue
+		}
+	}
 }
 
 func genTargets(rng *hk.Rand, p *progSpec) {
@@ -412,6 +476,7 @@ func genDigest(rng *hk.Rand) *progSpec {
 }
 
 func runProgram(r *hk.Run, p *progSpec, origin *realOrigin, part string) {
+	restrictForEntry(p)
 	o, res, er := execute(p, origin)
 	for _, f := range oracle(p, &o, res, er) {
 		r.Fail(f)
@@ -438,7 +503,7 @@ func runProgram(r *hk.Run, p *progSpec, origin *realOrigin, part string) {
 	key, _ := json.Marshal(p)
 	coq := ""
 	if o.RtPanic == "" {
-		coq = fmt.Sprintf("ProgCase %s %s", p.coq(o.CtxCutAt), o.coq())
+		coq = p.coqCase(&o)
 	}
 	r.Add(hk.Case{Coq: coq, Desc: map[string]interface{}{"kind": "program:" + part, "program": p, "observed": o}}, string(key), nontrivial)
 }
@@ -459,6 +524,7 @@ func runC18(r *hk.Run) {
 	r.CheckFn = "c18_check"
 	r.Rule = "programs = entry point (Do/Send/Get/Post/MustGet/MustPost) x targets {success, error, common error type} x custom state checker x auto-read (on / off on client / off on request) x error hook x retry option x per-attempt scripts for every stage (request middleware, marshal function, wrapping round-trippers, GetBody, transport answer = failure or status 100..599 x content type x body x read error, client- and request-level response middleware incl. digest re-send, retry condition). Non-trivial: a target is configured, or more than one stage ran, or the call ended in error. Distinct by the program's JSON."
 	rng := hk.NewRand(r.Seed)
+	loadEntries(r)
 
 	if r.Replay != "" {
 		b, err := os.ReadFile(r.Replay)
@@ -524,6 +590,9 @@ func runC18(r *hk.Run) {
 
 // what a real net/http origin can serve exactly as scripted
 func realisable(p *progSpec) bool {
+	if strings.HasSuffix(p.Entry, "Head") { // a real origin sends no body in answer to HEAD
+		return false
+	}
 	ok := func(t toutSpec) bool {
 		if t.Fail != 0 || t.B.ReadErr != 0 || t.B.WriteErr != 0 {
 			return false
